@@ -198,6 +198,13 @@ class EnvView(dict):
         return {k: self[k] for k in self.keys()}
 
 
+class Unsupplied:
+    """placeholder for a variable of an enclosing function that a nested-function contract does not describe"""
+
+    def __init__(self, name):
+        self.name = name
+
+
 class Frame:
     def __init__(self, fn, parent, globals_):
         self.fn, self.parent, self.globals = fn, parent, globals_
@@ -209,7 +216,11 @@ class Frame:
         f = self
         while f is not None:
             if name in f.locals:
-                return f.locals[name]
+                v = f.locals[name]
+                if isinstance(v, Unsupplied):
+                    from .run import Unsupported
+                    raise Unsupported(f'free variable {name!r} of the inner function is bound by the enclosing function but not described by the contract')
+                return v
             f = f.parent
         if name in self.globals:
             return self.globals[name]
